@@ -180,9 +180,9 @@ class AbstractResponderFunc():  # Not a real ABC.
     @permanent.setter
     def permanent(self, value):
         self._permanent = value
-        if value and self.enabled:
+        if value:
             sac.CmdPeriod.remove(self.__on_cmd_period)
-        else:
+        elif self.enabled:
             sac.CmdPeriod.add(self.__on_cmd_period)
 
     def enable(self):
